@@ -72,6 +72,15 @@ class Who:
                 self.env[prm] = {f"param:{prm}"}
         if "uid" in params:
             self.uid_of["uid"] = "param:uid"
+        # a parameter the function mutates THROUGH (p.create_group(..), del p[..], p[..] = .., p.attrs.create(..)) is a node it
+        # was handed, whatever it is called (`container`, `group`, ...): what it denotes is decided where the function is called
+        from ._c09_summary import root_name
+
+        for _n, b, _w, _k in mutation_sites(fn):
+            r = root_name(b)
+            if r in params and r not in self.env and r not in TARGET_PARAMS and r != "uid":
+                self.env[r] = {f"param:{r}"}
+        self.handle_params = {x[6:] for v in self.env.values() for x in v if x.startswith("param:")}
         changed = True
         while changed:
             changed = False
@@ -182,7 +191,7 @@ class Who:
         return set()
 
 
-def _skeleton_key(fn, key) -> bool:
+def _skeleton_key(fn, key, consts=None) -> bool:
     """The key expression can only hold the name of a skeleton container (value-set analysis of the expression: constants,
     locals assigned constants in branches, loop variables over literal tables, next(<generator over a literal table>), dict
     look-ups), or it is the dataset name of an attribute looked up in KEY_MAP."""
@@ -191,11 +200,25 @@ def _skeleton_key(fn, key) -> bool:
     vals = const_values(key, fn.node)
     if vals is not None and vals and vals <= SKELETON:
         return True
+    if consts is not None and key is not None:
+        # across functions: the value a helper returns, tables put together, module / class level constants
+        vals = consts.strs(key, fn)
+        if vals and vals <= SKELETON:
+            return True
     if isinstance(key, ast.Name):
         for a in ast.walk(fn.node):
             if isinstance(a, ast.Assign) and isinstance(a.targets[0], ast.Name) and a.targets[0].id == key.id and "KEY_MAP" in unparse(a.value):
                 return True
     return False
+
+
+def _only_root_link(fn, key, consts) -> bool:
+    from ..roles import const_values
+
+    vals = {key.value} if isinstance(key, ast.Constant) else const_values(key, fn.node)
+    if vals is None and consts is not None:
+        vals = consts.strs(key, fn)
+    return bool(vals) and vals <= {"Root"}
 
 
 def mutation_sites(fn):
@@ -220,6 +243,21 @@ def mutation_sites(fn):
     return out
 
 
+def _summaries(ctx, W):
+    from ._c09_summary import Summaries
+
+    sm = Summaries(ctx, W, Who, mutation_sites, lambda q: q in ("file", "h5file") or q in TARGET_PARAMS or q == "uid")
+    cache: dict = {}
+
+    def who_of(m0):
+        if m0.name not in cache:
+            cache[m0.name] = Who(ctx.view(m0), ctx.p)
+        return cache[m0.name]
+
+    sm.who_of = who_of
+    return sm
+
+
 def rule_prov(ctx) -> RuleResult:
     res = RuleResult(
         "C09.PROV",
@@ -230,8 +268,12 @@ def rule_prov(ctx) -> RuleResult:
         "own children / property groups; no mutation sits in a loop over a handle's members",
         floor=40,
     )
+    from ._c09_consts import Consts
+
     p = ctx.p
     W = p.cls("H5Writer")
+    consts = Consts(p, ctx.view)
+    summaries = _summaries(ctx, W)
     n_sites = 0
     for name, fn0 in W.methods.items():
         fn = ctx.view(fn0)
@@ -245,7 +287,7 @@ def rule_prov(ctx) -> RuleResult:
                 base = it.func.value if isinstance(it, ast.Call) and isinstance(it.func, ast.Attribute) and it.func.attr in ("items", "values", "keys") else it
                 if who.who(base) and not isinstance(base, (ast.List, ast.Tuple)):
                     handle_loops.append(n)
-        for node, base, what, key in mutation_sites(fn):
+        for node, base, what, key in mutation_sites(fn) + summaries.instantiate(fn):
             w = who.who(base)
             if not w:
                 # stores into plain python containers (dicts, arrays) are not file mutations
@@ -262,7 +304,10 @@ def rule_prov(ctx) -> RuleResult:
                 if x == PROJECT:
                     k = key.value if isinstance(key, ast.Constant) else None
                     keyname = unparse(key) if key is not None else ""
-                    if k in SKELETON or keyname == "workspace.name" or _skeleton_key(fn, key):
+                    if k in SKELETON or keyname == "workspace.name" or _skeleton_key(fn, key, consts):
+                        if what.startswith("del") and not _only_root_link(fn, key, consts):
+                            # the skeleton containers hold every entity / type of the file: only the Root LINK is ever re-pointed
+                            bad.append("every entity of a skeleton container")
                         continue
                     # deleting / writing a flat-container entry keyed by the uid that was given
                     if key is not None and who.uid_expr(key) in allowed | {"param:uid"}:
@@ -288,20 +333,35 @@ def rule_prov(ctx) -> RuleResult:
                     # a private helper that could not be expanded in place: it works on what it is handed (its own
                     # body is analysed like every other writer function: mutations only on its handle / uid parameters)
                     continue
-                arg = c.args[1]
-                txt = unparse(arg)
-                ok = txt in allowed or txt in who.params
-                if not ok and isinstance(arg, ast.Name):
-                    # loop variable over the target's own children / property groups
-                    for lp in ast.walk(fn.node):
-                        if isinstance(lp, ast.For) and isinstance(lp.target, ast.Name) and lp.target.id == arg.id:
-                            it = unparse(lp.iter)
-                            if any(it == f"{a}.children" or it == f"{a}.property_groups" for a in who.params if a in TARGET_PARAMS):
-                                ok = True
-                res.inst(f"H5Writer.{name}:{c.lineno} -> H5Writer.{c.func.attr}(…, {txt[:30]})", ok=ok)
-                if not ok:
-                    res.find("H5Writer", name, f"writer call on {txt[:40]}", f"{fn.module.relpath}:{c.lineno}",
-                             f"H5Writer.{name} hands `{txt[:40]}` to H5Writer.{c.func.attr}: not its target, parent, type, child or property group")
+                # the entity arguments: the one after the file (as ever) and every parameter of the callee that names a target;
+                # a node handed over (handle parameter of the callee) is judged by the mutations the callee makes on it (summaries)
+                from ._c09_summary import bind, own_params
+
+                cparams = own_params(callee)
+                cwho = summaries.who_of(callee)
+                actuals = bind(callee, c) or {}
+                todo = []
+                if not cparams or cparams[0] not in cwho.handle_params and (len(cparams) < 2 or cparams[1] not in cwho.handle_params):
+                    # (a helper whose first parameter is a node it is handed takes no file: it designates no entity by position)
+                    todo.append(c.args[1])
+                todo += [a for q, a in actuals.items() if q in TARGET_PARAMS and all(a is not t for t in todo)]
+                for arg in todo:
+                    txt = unparse(arg)
+                    xt_ = unparse(who.x(arg))  # `entity_type = entity.entity_type` left by an expanded helper is the target's type
+                    ok = txt in allowed or txt in who.params or xt_ in allowed
+                    if not ok and isinstance(arg, ast.Name):
+                        # loop variable over the target's own children / property groups
+                        for lp in ast.walk(fn.node):
+                            if isinstance(lp, ast.For) and isinstance(lp.target, ast.Name) and lp.target.id == arg.id:
+                                it = unparse(lp.iter)
+                                if any(it == f"{a}.children" or it == f"{a}.property_groups" for a in who.params if a in TARGET_PARAMS):
+                                    ok = True
+                    if not ok and isinstance(arg, ast.Constant):
+                        ok = True  # None / a literal default: no entity is designated
+                    res.inst(f"H5Writer.{name}:{c.lineno} -> H5Writer.{c.func.attr}(…, {txt[:30]})", ok=ok)
+                    if not ok:
+                        res.find("H5Writer", name, f"writer call on {txt[:40]}", f"{fn.module.relpath}:{c.lineno}",
+                                 f"H5Writer.{name} hands `{txt[:40]}` to H5Writer.{c.func.attr}: not its target, parent, type, child or property group")
     if n_sites < 40:
         raise AnalysisError(f"C09.PROV: only {n_sites} HDF5 mutation sites recognised in the writer (floor 40)")
     # the Workspace-side callers that visit several entities
@@ -336,13 +396,16 @@ def rule_parent(ctx) -> RuleResult:
     )
     p = ctx.p
     W = p.cls("H5Writer")
+    summaries = _summaries(ctx, W)
+    pure = {m for m, f0 in W.methods.items() if summaries.pure(f0)}
     for name, fn0 in W.methods.items():
         fn = ctx.view(fn0)
-        if not any(isinstance(n, ast.Delete) for n in ast.walk(fn.node)):
+        synth = summaries.instantiate(fn)
+        if not any(isinstance(n, ast.Delete) for n in ast.walk(fn.node)) and not any(w.startswith("del") for _c, _b, w, _k in synth):
             continue
         who = Who(fn, p)
         allowed = allowed_exprs(who.params) | ancestor_locals(fn, who.params)
-        P, dels = container_deletes(fn, who, allowed)
+        P, dels = container_deletes(fn, who, allowed, synth)
         for node, base, key, w, cid, is_target in dels:
             where = f"{fn.module.relpath}:{node.lineno}"
             head = f"H5Writer.{name}:{node.lineno} del on the node of {sorted(w)}"
@@ -355,7 +418,7 @@ def rule_parent(ctx) -> RuleResult:
                 else:
                     res.inst(f"{head}: " + ("entry keyed by the target's uid" if is_target else "key not determined (left to C09.PROV)"), ok=True)
                 continue
-            bad = Interp(fn, P, cid, set(W.methods)).run().get(id(node), set())
+            bad = Interp(fn, P, cid, set(W.methods), synth, pure).run().get(id(node), set())
             label = describe(cid)
             res.inst(f"{head}: whole member '{label}' — worlds (count, target inside) reaching it unproven: {sorted(bad)}", nontrivial=True, ok=not bad)
             if bad:
